@@ -21,6 +21,11 @@ FINALS = [
     # a final statement that is not an expression statement although the last emitted instructions belong to one
     ("{ 5; }", None), ("7; { }", None), ("8; { let z = 1; }", None), ("{ { 3 } }", None), ("9; fn late2() { 2 }", None), ("6; let y = 1;", None),
     ("4; while false { }", None), ("11; if false { 1 }", None), ("12; null", None), ("null; 13", "13"), ("{ 1 } 14", "14"),
+    # after statements that leave operands behind (break / continue taken in operand position, the open finding of C07), the
+    # value echoed is still that of the final expression statement
+    ("let s = 0; let i = 0; while i < 3 { i = i + 1; s = s + i * if i == 2 { continue; } else { 10 }; } s", "40"),
+    ("let k = 0; loop { k = k + 1; let t = [7, if k > 2 { break; } else { 1 }]; } k + 100", "103"),
+    ("let j = 0; while j < 2 { j = j + 1; let w = [1, 2, if j == 1 { continue; } else { 3 }]; } \"done\"", "\"done\""),
 ]
 
 SHEBANGS = ["#!/usr/bin/env p2sh", "#!", "#!/usr/local/bin/p2sh -s", "#!/home/jos\u00e9/\u5de5\u5177/bin/p2sh", "#! \u00e9", "#!/bin/p2sh " + "x" * 300,
@@ -147,6 +152,33 @@ def run(chk):
                     bad, sig = "with a shebang line the script printed %r, expected %r" % (rs["out"], out), "shebang-output"
             if bad:
                 chk.violation("modes|" + sig, bad, {"src": text})
+        # filter programs: script and command mode agree also when the part before the filters fails at run time
+        from . import pkt as _pkt
+        cap = os.path.join(work, "three.pcap")
+        with open(cap, "wb") as f:
+            f.write(_pkt.pcap_file([(1, 2, bytes(range(60))), (2, 3, bytes(range(62))), (3, 4, bytes(range(64)))]))
+        FPROGS = ["let c = 0; @ true { c = c + 1; } @ end { eprintln(\"n {}\", c); }", "let c = 0; 1 / 0; @ true { c = c + 1; } @ end { eprintln(\"n {}\", c); }",
+                  "eprintln(\"start\"); [1][5]; @ NP > 1 @ end { eprintln(\"end {}\", NP); }", "fn f() { f() } f(); @ true @ end { eprintln(\"e\"); }",
+                  "let a = len(1); @ PL > 60", "puts(1 / 0); @ true { eprintln(\"p {}\", NP); }", "@ true { 1 / 0; } @ end { eprintln(\"after\"); }", "7; @ true", "\"v\" @ end { eprintln(\"x\"); }"]
+        for k, prog in enumerate(FPROGS):
+            with open(path, "w") as f:
+                f.write(prog + "\n")
+            for rel in (False, True):
+                for extra in ([], ["-s"]):
+                    with open(cap, "rb") as fi:
+                        rf = core.run_binary(extra + [path], stdin_file=fi, release=rel, timeout=30)
+                    with open(cap, "rb") as fi:
+                        rc = core.run_binary(extra + ["-c", prog], stdin_file=fi, release=rel, timeout=30)
+                    if rf["timeout"] or rc["timeout"]:
+                        chk.inconc("timeout")
+                        continue
+                    chk.observed(("filter-program", k, rel, bool(extra)))
+                    if core.crashed(rf) or core.crashed(rc):
+                        chk.violation("crash", "a mode crashes on a filter program", {"src": prog})
+                    elif rf["out"] != rc["out"] or rf["err"] != rc["err"] or rf["rc"] != rc["rc"]:
+                        chk.violation("modes|filter-program|%s" % ("fails-before-filters" if b"Runtime error" in rf["err"] else "ok"),
+                                      "the filter program %r behaves differently as a script (stdout %d bytes, stderr %r) and with -c (stdout %d bytes, stderr %r)" % (
+                                          prog, len(rf["out"]), rf["err"][-80:], len(rc["out"]), rc["err"][-80:]), {"src": prog})
         # argv
         with open(path, "w") as f:
             f.write("puts(argv);\n")
